@@ -186,7 +186,11 @@ class Ctx:
                     self._add_violation(site, binary, space, args, idx, desc,
                                         "crash rc=%d: %s" % (rc, errt[:1500]))
                     restarts += 1
-                    if idx >= 0 and restarts < 400:
+                    if idx < resume:
+                        # died before reaching its first case: a harness problem, not attributable to a case
+                        self.harness_errors.append("%s: worker %d died outside any case: %s" % (space, i, errt[:600]))
+                        rec["truncated"] = True
+                    elif restarts < 400:
                         launch(i, idx + 1)
                     else:
                         rec["truncated"] = True
